@@ -24,23 +24,31 @@ def MS.thisLine (s : MS) : Nat × Nat := (Vicut.thisLine s.lb).getD (0, s.max)
 def MS.sol (s : MS) : Nat := s.thisLine.1
 def MS.eol (s : MS) : Nat := s.thisLine.2
 
-/-- `l` with a count: the position reached, `none` = `MotionKind::Null`. -/
-def forwardGo (s : MS) : Nat → Nat → Option Nat
-  | 0, t => some t
+/-- `l` with a count: the position reached. In normal mode (exclusive cursor, no selection) it goes as
+far as the line allows: it stops on a terminator, and without an operator it stops on the last character
+(fix 5968289; before, a count too large made the motion fail and an operator never got the last character). -/
+def forwardGo (s : MS) (hasVerb : Bool) : Nat → Nat → Nat
+  | 0, t => t
   | n + 1, t =>
-    if !s.selecting && s.excl && s.isNlAt (min (t + 1) s.max) then none
-    else if s.selecting && s.isNlAt t then some t
-    else forwardGo s n (min (t + 1) s.max)
+    if !s.selecting && s.excl then
+      if s.isNlAt t then t
+      else if !hasVerb && s.isNlAt (min (t + 1) s.max) then t
+      else forwardGo s hasVerb n (min (t + 1) s.max)
+    else if s.selecting && s.isNlAt t then t
+    else forwardGo s hasVerb n (min (t + 1) s.max)
 
 /-- `h` with a count. -/
 def backwardGo (s : MS) : Nat → Nat → Option Nat
   | 0, t => some t
   | n + 1, t => if s.isNlAt (t - 1) then none else backwardGo s n (t - 1)
 
-/-- `select_lines_down(n)` -/
+/-- `select_lines_down(n)`: the cursor line alone for `n = 0` (also on the last line); with lines below,
+a count that is too large takes the lines there are; the position after a final newline is no line
+(fix 0cdfd90). -/
 def MS.selectLinesDown (s : MS) (n : Nat) : Option (Nat × Nat) :=
-  if s.eol = s.max then none
-  else (lineBounds s.gs (cursorLine s.lb + n)).map (fun b => (s.sol, b.2))
+  if n = 0 then some (s.sol, s.eol)
+  else if s.eol = s.max then none
+  else (lineBounds s.gs (min (cursorLine s.lb + n) (lastLineNumber s.gs))).map (fun b => (s.sol, b.2))
 
 /-- First non-blank of the cursor line (scan stops at the terminator). -/
 def firstWordGo (s : MS) : Nat → Nat → Option Nat
@@ -55,18 +63,21 @@ inductive SMotion where
   | forwardChar | backwardChar | bol | eol | firstWord | bob | eob | toColumn | wholeBuffer
   deriving Repr, BEq, DecidableEq
 
-def evalSimple (s : MS) (m : SMotion) (count : Nat) (appending : Bool) : MK :=
+def evalSimple (s : MS) (m : SMotion) (count : Nat) (hasVerb : Bool) : MK :=
   match m with
-  | .forwardChar => match forwardGo s count s.cur with | some p => .on p | none => .null
+  | .forwardChar =>
+    (fun p => if !s.selecting && s.excl && p == s.cur then MK.null else MK.on p) (forwardGo s hasVerb count s.cur)
   | .backwardChar => match backwardGo s count s.cur with | some p => .on p | none => .null
   | .bol => .on s.sol
   | .eol =>
-    -- end_of_line() is exclusive and counts the terminator: step back onto it (fix 1f0fadd)
-    (fun pos0 =>
+    -- end_of_line() is exclusive and counts the terminator: step back onto it (fix 1f0fadd); an operator
+    -- works up to the terminator (fix 1f4e5d1); `N$` without that many lines below fails
+    match (if count = 1 then some s.eol else (s.selectLinesDown (count - 1)).map (fun b => b.2)) with
+    | none => .null
+    | some pos0 =>
       (fun pos =>
-        if !appending && s.isNlAt pos && pos > 0 && !s.isNlAt (pos - 1) then MK.on (pos - 1) else MK.on pos)
-      (if pos0 > 0 && s.isNlAt (pos0 - 1) then pos0 - 1 else pos0))
-    (if count = 1 then s.eol else match s.selectLinesDown (count - 1) with | some b => b.2 | none => s.eol)
+        if !hasVerb && s.isNlAt pos && pos > 0 && !s.isNlAt (pos - 1) then MK.on (pos - 1) else MK.on pos)
+      (if pos0 > 0 && s.isNlAt (pos0 - 1) then pos0 - 1 else pos0)
   | .firstWord => match firstWordGo s (s.max + 1) s.sol with | some p => .on p | none => .null
   | .bob => .lineOffset (-(cursorLine s.lb : Int))
   | .eob => .lineOffset ((totalLines s.gs : Int) - (cursorLine s.lb : Int))
@@ -77,24 +88,34 @@ end Vicut
 
 namespace Vicut
 
-/-- `f F t T` with a count (`CharSearch(direction, dest, ch)`): the cursor keeps its clamp kind while it
-scans; `F`/`T` scan everything before the cursor (`(0..pos).rev()`, since fix 602f313; before, the grapheme
-next to the cursor was skipped). -/
-def charSearchGo (gs : List Gr) (ub : Nat) (fwd before : Bool) (ch : Gr) : Nat → Nat → Option Nat
+/-- `f F t T` with a count (`CharSearch(direction, dest, ch)`): the occurrence search on the cursor line
+(`lo ..< hi` = the line, fix "f F t T crossed line boundaries"); the cursor keeps its clamp kind while it
+scans; `F`/`T` scan everything before the cursor on the line (since fix 602f313; before, the grapheme next to
+the cursor was skipped). -/
+def charSearchGo (gs : List Gr) (ub lo hi : Nat) (fwd : Bool) (ch : Gr) : Nat → Nat → Option Nat
   | 0, pos => some pos
   | n + 1, pos =>
     if fwd then
-      match (List.range' (min (pos + 1) ub) (gs.length - min (pos + 1) ub)).find? (fun i => gs[i]? == some ch) with
+      match (List.range' (min (pos + 1) ub) (hi - min (pos + 1) ub)).find? (fun i => gs[i]? == some ch) with
       | none => none
-      | some i => charSearchGo gs ub fwd before ch n (if before then min i ub - 1 else min i ub)
+      | some i => charSearchGo gs ub lo hi fwd ch n (min i ub)
     else
-      match (List.range pos).reverse.find? (fun i => gs[i]? == some ch) with
+      match (List.range' lo (pos - lo)).reverse.find? (fun i => gs[i]? == some ch) with
       | none => none
-      | some i => charSearchGo gs ub fwd before ch n (if before then min (min i ub + 1) ub else min i ub)
+      | some i => charSearchGo gs ub lo hi fwd ch n (min i ub)
 
-def evalCharSearch (gs : List Gr) (cur : Nat) (excl fwd before : Bool) (ch : Gr) (count : Nat) : MK :=
-  match charSearchGo gs (if excl then gs.length - 1 else gs.length) fwd before ch count cur with
-  | some p => .onto p
+/-- `count` occurrences are searched first; `t`/`T` then stop next to the last one (fix f7e2646: the step
+used to be taken inside the loop, so `2ta` found the same occurrence twice). -/
+def charSearchTarget (s : MS) (fwd before : Bool) (p : Nat) : Nat :=
+  if before then (if fwd then p - 1 else min (p + 1) (if s.excl then s.max - 1 else s.max)) else p
+
+/-- With an operator, a forward search that ends on the cursor itself (`dta` with the `a` right after the
+cursor) still takes the cursor grapheme (fix 302302f). -/
+def evalCharSearch (s : MS) (fwd before : Bool) (ch : Gr) (count : Nat) (hasVerb : Bool := false) : MK :=
+  match charSearchGo s.gs (if s.excl then s.max - 1 else s.max) s.sol s.eol fwd ch count s.cur with
+  | some p =>
+    if hasVerb && fwd && charSearchTarget s fwd before p == s.cur then .inclusive s.cur s.cur
+    else .onto (charSearchTarget s fwd before p)
   | none => .null
 
 end Vicut
